@@ -23,6 +23,7 @@ def main():
     except ValueError:
         seed = int.from_bytes(a.seed.encode(), "little") % (1 << 31)
     sys.path.insert(0, core.REPO)
+    core.ensure_deps()      # offline install of icontract into .deps if a fresh restore lacks it
     if a.replay:
         with open(a.replay) as f:
             rp = json.load(f)
